@@ -440,6 +440,7 @@ func (e *bEnv) FetchSourcePackage(ctx context.Context, sourceType string, u *url
 				// permission bits that are all zero are permission bits too
 				os.WriteFile(filepath.Join(targetDir, "zero"), []byte(fmt.Sprintf("content-%d zero", f.Content)), 0644)
 				os.Chmod(filepath.Join(targetDir, "zero"), 0)
+				os.Mkdir(filepath.Join(targetDir, "m", "hollow"), 0755) // an empty directory that is not at the package root
 				os.Mkdir(filepath.Join(targetDir, "zdir"), 0755)
 				os.Chmod(filepath.Join(targetDir, "zdir"), 0)
 				// a package that keeps what the built-in rules exclude, through its own rule file
@@ -1073,9 +1074,17 @@ func bundleDiff(e *bEnv, a, b *sourcebundle.Bundle, rootA, rootB string, files b
 				out = append(out, "missing after extraction: "+k)
 				continue
 			}
-			// contents are not in the arena table: compare bytes directly; mtimes are not compared
+			// contents are not in the arena table: compare bytes directly
 			if n.K != m.K || n.M != m.M || strings.Join(n.Tgt, "/") != strings.Join(m.Tgt, "/") {
 				out = append(out, fmt.Sprintf("%s: %v vs %v", k, n, m))
+			}
+			// files and directories below the root keep their modification time to the second (what the archive stores)
+			if k != "" && n.K != "l" && files {
+				fa, ea := os.Lstat(filepath.Join(rootA, strings.TrimPrefix(k, "?")))
+				fb, eb := os.Lstat(filepath.Join(rootB, strings.TrimPrefix(k, "?")))
+				if ea == nil && eb == nil && k != "terraform-sources.json" && !fa.ModTime().Round(time.Second).Equal(fb.ModTime()) {
+					out = append(out, fmt.Sprintf("modification time of %s: %v vs %v", k, fa.ModTime().Round(time.Second).Unix(), fb.ModTime().Unix()))
+				}
 			}
 			if n.K == "f" {
 				x, _ := os.ReadFile(filepath.Join(rootA, strings.TrimPrefix(k, "?")))
